@@ -219,4 +219,11 @@ theorem m6502_encode_sound (ctx : Ctx) (hp : ctx.pass1 = false) (s : Stmt) (bs :
           simp only [List.append_nil]
           exact mem_form hr hs
 
+/-- non-vacuity: an accepted statement, its reading, and the architecture's decoding of the emitted bytes -/
+example : encode { address := 0x1000 } ⟨"lda", .s0, .addr .none 0x34⟩ = .ok [0xa5, 0x34] ∧
+    (⟨.lda, .zp, 0x34, 0⟩ : Instr) ∈ readings 0x1000 ⟨"lda", .s0, .addr .none 0x34⟩ ∧
+    Arch.decode 0x1000 [0xa5, 0x34] = some (⟨.lda, .zp, 0x34, 0⟩, 2) := by decide +kernel
+example : encode { address := 0x1000 } ⟨"bbs7", .s0, .addrRel .none 0x12 0x1082⟩ = .ok [0xff, 0x12, 0x7f] ∧
+    Arch.decode 0x1000 [0xff, 0x12, 0x7f] = some (⟨.bbs 7, .zprel, 0x1082, 0x12⟩, 3) := by decide +kernel
+
 end NakenVerif.M6502
